@@ -292,7 +292,7 @@ OPS = {
     "PartialOrd_for_Num::partial_cmp": ["num.cmp"], "PartialEq_for_Num::eq": ["num.eq"],
     "calc": ["area.calc"], "Area::new": ["area.calc"],
     "BigNum::to_string_base": ["big.to_base", "big.roundtrip"], "BigNum::from_string_base": ["big.from_base", "big.roundtrip"],
-    "BigNum::from_string": ["big.from_base"],
+    "BigNum::from_string": ["big.from_base"], "Num::from_string": ["num.roundtrip"],
 }
 
 PROP_OPS = {
